@@ -194,6 +194,10 @@ class SoftMax:
             np.double(beta) * np.double(input_scale) * (1 << (31 - integer_bits)), np.double((1 << 31) - 1.0)
         )
         scale, shift = scaling.quantise_scale(real_beta)
+        if scale == (1 << 31):
+            # significand rounded up to 1.0: renormalise as the reference QuantizeMultiplier does
+            scale >>= 1
+            shift -= 1
         shift = 31 - shift
         diff_min = -1.0 * math.floor(
             1.0 * ((1 << integer_bits) - 1) * (1 << (total_signed_bits - integer_bits)) / (1 << shift)
